@@ -1255,7 +1255,13 @@ func (w *tableWorld) adminTask() {
 			case 1:
 				lvl = -1
 			case 2:
-				lvl = 0
+				// "blinds not set" again in the middle of a competition is an odd request: only the
+				// workloads about opening conditions issue it
+				if w.focus("C07", "C12") {
+					lvl = 0
+				} else {
+					lvl = -1
+				}
 			}
 			nb := blindRec{lvl, w.blind.ante, w.blind.dealer, w.blind.sb, w.blind.bb}
 			if lvl > 0 {
